@@ -20,6 +20,17 @@ pub fn finish(sim: &Sim, mut r: Report) -> Report {
     if r.violation.is_some() && r.trace_tail.is_empty() {
         r.trace_tail = trace_tail(sim, 40);
     }
+    // debug aid (`mlsim one ...` only): MLSIM_DUMP_TRACE=<substring> prints the matching trace lines
+    if let Ok(pat) = std::env::var("MLSIM_DUMP_TRACE") {
+        sim.with_trace(|t| {
+            for d in t.iter() {
+                let l = trace_line(d);
+                if l.contains(&pat) {
+                    println!("{l}");
+                }
+            }
+        });
+    }
     sim.teardown();
     r
 }
